@@ -239,6 +239,21 @@ fn tl_c10_table(args: &Args, rep: &mut Report) {
         fs.push(Finding { v: vh_common::Violation { prop: "C10", oracle: "build_table", msg: b.clone() }, sig: "C10/build_table".into(), replay: Json::obj().with("engine", "build_table").with("message", b) });
     }
     rep.add_findings(fs);
+    // zero wait on the real clock
+    let (nz, badz) = tl::c10::zero_wait_real_clock();
+    let cov = rep.engine("zero_wait_real_clock");
+    cov.evaluations += nz;
+    cov.events += nz;
+    for i in 0..nz {
+        let _ = cov.distinct.insert(1000 + i);
+        let _ = cov.nontrivial.insert(1000 + i);
+    }
+    cov.sample(Json::from("first poll of a zero-wait get on a real-clock runtime (managed: all slots in use; unmanaged: empty pool; configured and per-call): must be Ready(Timeout)"));
+    let mut fs = Vec::new();
+    for b in badz {
+        fs.push(Finding { v: vh_common::Violation { prop: "C10", oracle: "zero_wait_suspended", msg: b.clone() }, sig: "C10/zero_wait_real_clock".into(), replay: Json::obj().with("engine", "zero_wait_real_clock").with("message", b) });
+    }
+    rep.add_findings(fs);
     // unmanaged pool
     let rt = tl::run::new_runtime();
     let mut fs = Vec::new();
